@@ -3,7 +3,6 @@ package level
 import (
 	"errors"
 	"io"
-	"math/bits"
 	"strconv"
 
 	"github.com/Tnze/go-mc/level/biome"
@@ -90,10 +89,10 @@ func NewBiomesPaletteContainer(length int, defaultValue BiomesState) *PaletteCon
 func NewBiomesPaletteContainerWithData(length int, data []uint64, pat []BiomesState) *PaletteContainer[BiomesState] {
 	var p palette[BiomesState]
 	n := calcBitsPerValue(length, len(data))
-	if len(pat) > 1 && len(pat) <= 1<<3 {
-		// The width of an indirect biome palette follows from the palette size; the number of longs is
-		// ambiguous (64 entries take 4 longs with 3 bits and with 4 bits).
-		n = bits.Len(uint(len(pat) - 1))
+	if n == 4 && len(pat) <= 1<<3 {
+		// The number of longs is ambiguous for 64 entries (4 longs with 3 bits and with 4 bits): a palette
+		// of at most 8 entries means indirect 3-bit indices, not direct ids.
+		n = 3
 	}
 	switch n {
 	case 0:
